@@ -41,6 +41,12 @@ func (p *FloatingIPPlugin) ensureIPAMConf(lastConf *string, newConf string) (boo
 	if err := json.Unmarshal([]byte(newConf), &conf); err != nil {
 		return false, fmt.Errorf("failed to unmarshal configmap val %s to floatingip config: %v", newConf, err)
 	}
+	for i := range conf {
+		// json null is accepted as an element of the list and would be dereferenced by ConfigurePool
+		if conf[i] == nil {
+			return false, fmt.Errorf("floatingip config %s has a null pool at index %d", newConf, i)
+		}
+	}
 	if err := p.ipam.ConfigurePool(conf); err != nil {
 		return false, fmt.Errorf("failed to configure pool: %v", err)
 	}
